@@ -629,6 +629,61 @@ def run(prog: Program, chk: Check):
     chk.units.update({"uncaught_region_functions": len(region), "partial_primitive_sinks": sinks, "container_loops": nloops, "socket_sites": nH,
                       "counter_key_taint": counter_key_taint})
 
+    # ---- K lookups keyed by a client-chosen message type are total ---------------------------------------------------------------
+    # UNSUBSCRIBE / PAUSE for a type nobody ever subscribed to, or a data frame of a never-seen type, index the manager's tables
+    # with a key that may be absent.  That is harmless for a defaultdict / Counter; on a plain dict it is a KeyError out of run().
+    K = chk.rule("C03-K", "tables of MessageManager indexed by a client-chosen message type are defaultdict / Counter, or the lookup is guarded by membership / a KeyError handler", 5,
+                 "a KeyError raised by one client's control frame ends run() and with it every connection")
+    mm_ci = prog.cls(MGR, "MessageManager")
+    init_ = mm_ci.methods.get("__init__")
+    ctor_of: Dict[str, str] = {}
+    for n_ in walk_local(init_.node) if init_ is not None else []:
+        tg_ = n_.targets[0] if isinstance(n_, ast.Assign) and len(n_.targets) == 1 else (n_.target if isinstance(n_, ast.AnnAssign) and n_.value is not None else None)
+        if tg_ is not None and (path_of(tg_) or "").startswith("self."):
+            v_ = n_.value
+            ctor_of[path_of(tg_)] = (norm(v_.func).split(".")[-1] if isinstance(v_, ast.Call) else type(v_).__name__)
+    nk = 0
+    occ_: Dict[Tuple[str, str], int] = {}
+    for f_ in mm_ci.methods.values():
+        g_ = None
+        for x_ in walk_local(f_.node):
+            if not (isinstance(x_, ast.Subscript) and isinstance(x_.ctx, ast.Load) or (isinstance(x_, ast.Subscript) and isinstance(getattr(x_, "_parent", None), ast.AugAssign) and x_._parent.target is x_)):
+                continue
+            tab = path_of(x_.value)
+            if tab is None or not tab.startswith("self.") or tab not in ctor_of:
+                continue
+            keytxt = norm(x_.slice)
+            by_type = "msg_type" in keytxt or keytxt in ("ALL_MESSAGE_TYPES", "sub_type", "mt") or any(w in keytxt for w in ("sub_type",))
+            if not by_type or ctor_of[tab] not in ("defaultdict", "Counter", "dict", "Dict", "OrderedDict"):
+                continue
+            nk += 1
+            occ_[(f_.qual, keytxt)] = occ_.get((f_.qual, keytxt), 0) + 1
+            tag_ = f"{tab}[{keytxt}]" + (f"#{occ_[(f_.qual, keytxt)]}" if occ_[(f_.qual, keytxt)] > 1 else "")
+            if ctor_of[tab] in ("defaultdict", "Counter"):
+                K.ok(fkey(f_, f"total:{tag_}"), where(f_, x_), f"{tab} is a {ctor_of[tab]}")
+                continue
+            # a key drawn from the table itself (`for t in self.subscriptions: ... self.subscriptions[t]`) is present
+            own_key = any(isinstance(a_, ast.For) and keytxt in {n3.id for n3 in ast.walk(a_.target) if isinstance(n3, ast.Name)}
+                          and norm(a_.iter).replace("list(", "").replace("tuple(", "").rstrip(")").split(".keys(")[0].split(".items(")[0] == tab for a_ in ancestors(x_))
+            if own_key:
+                K.ok(fkey(f_, f"own-key:{tag_}"), where(f_, x_), "key iterated from the table itself")
+                continue
+            # plain dict: membership guard on every path, or a KeyError handler around it
+            handled = any(isinstance(a_, ast.Try) and any(h_.type is None or any(w in norm(h_.type) for w in ("KeyError", "LookupError", "Exception")) for h_ in a_.handlers)
+                          and any(b_ is x_ or any(c_ is x_ for c_ in ast.walk(b_)) for b_ in a_.body) for a_ in ancestors(x_))
+            guarded = False
+            if not handled:
+                if g_ is None:
+                    g_ = C.build(f_.node)
+                    gs_ = flow.guard_states(g_)
+                node_ = next((n2 for n2 in g_.nodes if n2.ast is not None and any(c_ is x_ for c_ in ast.walk(n2.ast)) and n2.kind in ("stmt", "test", "return", "for", "with")), None)
+                if node_ is not None:
+                    guarded = not guards.any_path_implies(gs_.at_expr(node_, x_), guards.parse(f"{keytxt} in {tab}"))
+            K.decide(handled or guarded, fkey(f_, f"lookup:{tag_}"), where(f_, x_), "membership-guarded / KeyError handled",
+                     f"{f_.qual}: `{norm(x_)}` on a plain dict: a frame naming a type that was never registered raises KeyError out of run() (every connection is lost)")
+    if nk < 5:
+        raise AnalysisError(f"anchor vanished: expected >= 5 lookups keyed by message type in MessageManager, found {nk}")
+
     # ---- V the service loop runs with field validation off, unconditionally -----------------------------------------------------
     # The manager copies client-supplied values (names, ids) into the fields of the messages it builds (CLIENT_INFO, ACTIVE_CLIENTS,
     # FAILED_MESSAGE...).  With validation on, a value the wire format allows but the validator refuses (a 32-byte name without NUL)
